@@ -102,7 +102,45 @@ def keyvals_termination_bounded(seed):
             'evaluations': n, 'failures': fails}
 
 
-QUICK_BOUNDED = [keyvals_termination_bounded]
+
+def module_names_bounded(seed):
+    """loading of package / class modules is an assumed contract of the
+    deductive part (utils.get_module_handler: exec / eval inside a catch-all
+    handler).  Bounded stand-in: \\usepackage / \\documentclass with every
+    name of <= 3 pieces over {a, ., /, _, -, 1, ",", blank} and a list of
+    importable and reserved names: the filter returns a result"""
+    import contextlib
+    import io
+    import itertools
+    from pyvc import replay as _r
+    t2t = _r.real_module('yalafi.tex2txt')
+    names = set(['__init__', 'os', 'sys', 'os.path', 'yalafi', 'class',
+                 'import', 'amsmath', '.amsmath', 'yalafi.packages.amsmath',
+                 '.yalafi.packages.amsmath', 'None', 'a b', '\u00e4'])
+    for ln in range(0, 4):
+        for t in itertools.product(['a', '.', '/', '_', '-', '1', ',', ' '],
+                                   repeat=ln):
+            names.add(''.join(t))
+    n, fails = 0, []
+    for name in sorted(names):
+        for mac in ('\\usepackage', '\\documentclass'):
+            src = mac + '{' + name + '}\nText.\n'
+            n += 1
+            try:
+                with contextlib.redirect_stderr(io.StringIO()):
+                    t2t.tex2txt(src, t2t.Options())
+            except BaseException as e:      # noqa
+                fails.append({'source': src, 'why': 'exception %r' % (e,)})
+                if len(fails) >= 3:
+                    break
+        if len(fails) >= 3:
+            break
+    return {'name': 'package-and-class-names-never-raise', 'bounded': True,
+            'bound': 'all names of <= 3 pieces over 8 pieces + 14 special '
+            'names, two macros', 'evaluations': n, 'failures': fails}
+
+
+QUICK_BOUNDED = [keyvals_termination_bounded, module_names_bounded]
 
 TRUSTED = cm.TRUSTED_CORE
 ASSUMPTIONS = cm.ASSUME_CORE + [
